@@ -120,6 +120,13 @@ func runE1(r *eng.Run, sp e1Spec, D, K, maxStates int) e1Result {
 			rest = rest[:j]
 		}
 		if thorough {
+			// thorough: machine configuration with its stack + reference phase (without counters)
+			if k := strings.IndexByte(rest, '|'); k >= 0 {
+				rest = rest[k:]
+			}
+			if k := strings.IndexAny(rest, ":w"); k >= 0 {
+				rest = rest[:k]
+			}
 			return key[:i] + "#" + rest
 		}
 		cfg := key[:i]
